@@ -22,16 +22,16 @@ part of the serialized record).  This tool therefore
 Syntax only; refuses (Refuse) bit-fields, reference members, non-public bases and type spellings it
 cannot parse.
 """
-import concurrent.futures as cf
 import hashlib
 import os
 import re
 import sys
 
 sys.path.insert(0, os.path.dirname(os.path.abspath(__file__)))
-from cxx2lean import Refuse, ast_dump, kids  # noqa: E402
+from cxx2lean import Refuse, kids  # noqa: E402
+import c12_ast  # noqa: E402
 
-TU = "loads_tu.cc"
+TU = c12_ast.TU
 
 # harness type tag -> C++ type of the target
 ROOTS = [
@@ -53,13 +53,8 @@ ROOTS = [
 # fields are raw storage (begin / end / capacity pointers and an uninitialised local buffer)
 VALUE_CONTAINERS = {"vita::small_vector"}
 
-_dump_cache = {}
-
-
 def dump(filt):
-    if filt not in _dump_cache:
-        _dump_cache[filt] = ast_dump(TU, filt)
-    return _dump_cache[filt]
+    return c12_ast.dump(filt)
 
 
 # ---- a small parser for the type spellings clang prints ------------------------------------------
@@ -407,9 +402,7 @@ def generate():
     first = sorted({"::".join(parse_type(t).comps[i][0] for i in range(2)) for _, t in ROOTS} |
                    {"vita::analyzer", "vita::individual", "vita::basic_gene", "vita::locus", "vita::small_vector",
                     "vita::model_measurements", "vita::matrix", "vita::distribution"})
-    with cf.ThreadPoolExecutor(6) as ex:
-        for f, d in zip(first, ex.map(lambda f: ast_dump(TU, f), first)):
-            _dump_cache[f] = d
+    c12_ast.prefetch(first)
     recs, roots = collect()
     return render(recs, roots)
 
